@@ -14,9 +14,20 @@ structure TypeDecl where
   name : Nat
   /-- 0 class, 1 enum, 2 alias, ≥ 3 anything else (not exported) -/
   kind : Nat
-  /-- the files holding a declaration of the type (`get_locations`) -/
-  locs : List Nat
+  /-- the declarations of the type (`get_locations`): (file, position), first declaration first -/
+  locs : List (Nat × Nat)
 deriving DecidableEq, Repr
+
+/-- `type_sort_key`: `(full name, first location)`; `Option` orders `None` before `Some` -/
+def TypeDecl.key (t : TypeDecl) : Nat × Nat × Nat × Nat :=
+  match t.locs with
+  | [] => (t.name, 0, 0, 0)
+  | (f, p) :: _ => (t.name, 1, f, p)
+
+def lexLe4 (a b : Nat × Nat × Nat × Nat) : Bool :=
+  decide (a.1 < b.1) || (decide (a.1 = b.1) &&
+    (decide (a.2.1 < b.2.1) || (decide (a.2.1 = b.2.1) &&
+      (decide (a.2.2.1 < b.2.2.1) || (decide (a.2.2.1 = b.2.2.1) && decide (a.2.2.2 ≤ b.2.2.2))))))
 
 structure ModuleInfo where
   name : Nat
@@ -33,7 +44,10 @@ structure GlobalDecl where
   typed : Bool
 deriving DecidableEq, Repr
 
-def typeLe (a b : TypeDecl) : Bool := decide (a.name ≤ b.name)
+def typeLe (a b : TypeDecl) : Bool := lexLe4 a.key b.key
+
+/-- the ordering before the tie-break fix: full name only -/
+def typeLeNameOnly (a b : TypeDecl) : Bool := decide (a.name ≤ b.name)
 
 /-- `(&a.full_module_name, a.file_id).cmp(…)` -/
 def moduleLe (a b : ModuleInfo) : Bool := decide (a.name < b.name) || (decide (a.name = b.name) && decide (a.file ≤ b.file))
@@ -43,13 +57,19 @@ def declLe (a b : GlobalDecl) : Bool := decide (a.file < b.file) || (decide (a.f
 
 def globalNameLe (a b : GlobalDecl) : Bool := decide (a.name ≤ b.name)
 
-/-- `export_types`: sort by full name, keep types with a main-workspace location, keep class/enum/alias -/
+/-- `export_types`: sort by (full name, first declaration), keep types with a main-workspace location,
+keep class/enum/alias -/
 def exportTypes (isMain : Nat → Bool) (listing : List TypeDecl) : List TypeDecl :=
-  ((isort typeLe listing).filter (fun t => t.locs.any isMain)).filter (fun t => decide (t.kind < 3))
+  ((isort typeLe listing).filter (fun t => t.locs.any (fun l => isMain l.1))).filter (fun t => decide (t.kind < 3))
+
+/-- the behaviour between the two fixes: a stable sort by full name only (same-named file-private types
+stay in hash order) -/
+def exportTypesNameOnly (isMain : Nat → Bool) (listing : List TypeDecl) : List TypeDecl :=
+  ((isort typeLeNameOnly listing).filter (fun t => t.locs.any (fun l => isMain l.1))).filter (fun t => decide (t.kind < 3))
 
 /-- the pre-fix behaviour: hash order -/
 def exportTypesUnsorted (isMain : Nat → Bool) (listing : List TypeDecl) : List TypeDecl :=
-  (listing.filter (fun t => t.locs.any isMain)).filter (fun t => decide (t.kind < 3))
+  (listing.filter (fun t => t.locs.any (fun l => isMain l.1))).filter (fun t => decide (t.kind < 3))
 
 /-- `export_modules`: sort by (name, file), keep main-workspace modules that export something -/
 def exportModules (isMain : Nat → Bool) (listing : List ModuleInfo) : List ModuleInfo :=
